@@ -38,6 +38,9 @@ def zmax(a, b):
     return z3.If(a >= b, a, b)
 
 
+FUTURE_FAILED = z3.Function('future_failed', U, z3.BoolSort())
+
+
 class ModelMixin:
     # ------------------------------------------------------------------ builtin functions
     def call_builtin(self, name, args, kwargs, st, line):
@@ -338,6 +341,40 @@ class ModelMixin:
 
     def bi_functools_partial(self, args, kwargs, st, line):
         return [ok(PartialV(args[0], args[1:], kwargs), st)]
+
+    def bi_concurrent_futures_wait(self, args, kwargs, st, line):
+        """concurrent.futures.wait(fs, timeout=None, return_when=...) over a concrete list of futures: one path per
+        possible `done` set.  future_failed(f) is the (eventual) outcome of f.  ALL_COMPLETED: done = all;
+        FIRST_COMPLETED: done is non-empty; FIRST_EXCEPTION: done = all, or some future in done failed."""
+        fs = args[0]
+        items = list(st.obj(fs).items) if isinstance(fs, Ref) and st.obj(fs).kind == 'list' else None
+        if items is None or not all(isinstance(f, Opaque) for f in items):
+            raise EngineError('concurrent.futures.wait over a non-concrete list of futures')
+        if (len(args) > 1 and args[1] is not None) or kwargs.get('timeout') is not None:
+            raise EngineError('concurrent.futures.wait with a timeout')
+        rw = kwargs.get('return_when', args[2] if len(args) > 2 else 'ALL_COMPLETED')
+        if rw not in ('ALL_COMPLETED', 'FIRST_COMPLETED', 'FIRST_EXCEPTION'):
+            raise EngineError(f'concurrent.futures.wait: return_when {rw!r}')
+        out = []
+        n = len(items)
+        for mask in range(1 << n):
+            done = [f for i, f in enumerate(items) if mask >> i & 1]
+            rest = [f for i, f in enumerate(items) if not mask >> i & 1]
+            if rw == 'ALL_COMPLETED' and rest:
+                continue
+            if rw == 'FIRST_COMPLETED' and n and not done:
+                continue
+            s2 = st.fork()
+            if rw == 'FIRST_EXCEPTION' and rest:
+                if not done:
+                    continue
+                s2.assume(z3.Or([FUTURE_FAILED(f.term) for f in done]))
+                if not self.feasible(s2):
+                    continue
+            dv, rv = s2.alloc(HObj('list', items=done)), s2.alloc(HObj('list', items=rest))
+            s2.trace.append(Event('ext', 'concurrent.futures.wait', None, args, kwargs, (dv, rv), line, s2.held, extra={'done': done, 'not_done': rest}))
+            out.append(ok((dv, rv), s2))
+        return out
 
     def bi_copy_copy(self, args, kwargs, st, line):
         v = args[0]
@@ -799,6 +836,10 @@ class ModelMixin:
                        extra={'raised': exc, 'effect_may_have_happened': spec.effect_on_raise,
                               'splat': self.splat_snapshot(kwargs, s2)})
             s2.trace.append(ev)
+            if spec.on_raise is not None:
+                spec.on_raise(self, s2, recv, args, kwargs, exc)
+                if not self.feasible(s2):
+                    continue
             if spec.effect_on_raise and spec.effect is not None:
                 # both variants: effect happened / did not happen
                 s3 = s2.fork()
